@@ -125,6 +125,16 @@ TABLE = [
      'delete_cron_trigger', 'mistral.services.triggers.delete_cron_trigger',
      'delete_trust', 'the trust still needed to start the last execution '
      'would be deleted first'),
+    # --- which actions the heartbeat checker may expire -------------------------
+    (('C20',), E + 'actions.RegularAction.schedule',
+     '_create_action_execution',
+     E + 'actions.Action._create_action_execution', 'is_sync',
+     'asynchronous actions would be stored as synchronous and expired by '
+     'the heartbeat checker'),
+    (('C20',), E + 'actions.RegularAction.run', '_create_action_execution',
+     E + 'actions.Action._create_action_execution', 'is_sync',
+     'asynchronous actions would be stored as synchronous and expired by '
+     'the heartbeat checker'),
     # --- delays ------------------------------------------------------------------
     (('C08',), E + 'policies.RetryPolicy.after_task_complete',
      '_schedule_refresh_task_state',
